@@ -42,6 +42,16 @@ Theorem C18_no_messages_no_output : forall p1 d,
 Proof. intros p1 d. split; [exact (no_messages_no_output p1 d) | exact (no_messages_nothing_written p1 d)]. Qed.
 Print Assumptions C18_no_messages_no_output.
 
+(* Extracting over an output location that already holds files (an earlier extraction): the output file afterwards is
+   still exactly this input's extraction - in particular it is gone for a message-free input - the count is this input's,
+   and with at least one message the .p1i is the fresh index of the new output. *)
+Theorem C18_extract_over_existing_output : forall p1 save_index prior d,
+  fst (fst (extract_over p1 save_index prior d)) = match file_frames d with [] => None | _ => Some (spec_output d) end /\
+  snd (extract_over p1 save_index prior d) = spec_count d /\
+  (save_index = true -> file_frames d <> [] -> snd (fst (extract_over p1 save_index prior d)) = fresh_saved p1 (spec_output d)).
+Proof. exact extract_over_output. Qed.
+Print Assumptions C18_extract_over_existing_output.
+
 (* The model of the code (reader re-validation of every index entry, running output offsets) refines the SPEC-level
    description built from the scan alone. *)
 Theorem C18_extract_refines_spec : forall p1 d, extract p1 d = extract_spec p1 d.
